@@ -147,6 +147,34 @@ Theorem C19_precision_invariant_refuted :
 Proof. exact fbig_precision_refuted. Qed.
 Print Assumptions C19_precision_invariant_refuted.
 
+(** ---- whole inputs: every byte string (bytes in 0..255) is rejected or decoded to a canonical value;
+         the decoders neither panic nor run out of fuel *)
+Theorem C19_rbig_every_bytes : forall input, wf 8 input ->
+  match w_rbig_dec true input with
+  | Ok (n, d, rest) => rat_canon n d /\ wf 8 rest
+  | Err _ => True
+  | Panic _ | OutOfFuel => False
+  end.
+Proof. exact w_rbig_dec_total. Qed.
+Print Assumptions C19_rbig_every_bytes.
+
+Theorem C19_relaxed_every_bytes : forall input, wf 8 input ->
+  match w_relaxed_dec true input with
+  | Ok (n, d, rest) => 0 < d /\ wf 8 rest
+  | Err _ => True
+  | Panic _ | OutOfFuel => False
+  end.
+Proof. exact w_relaxed_dec_total. Qed.
+Print Assumptions C19_relaxed_every_bytes.
+
+Theorem C19_fbig_every_bytes : forall B input, 2 <= B -> wf 8 input ->
+  match w_fbig_dec true B input with
+  | Some (s, e, p, rest) => fbig_canon B s e p /\ wf 8 rest
+  | None => True
+  end.
+Proof. exact w_fbig_dec_total. Qed.
+Print Assumptions C19_fbig_every_bytes.
+
 (** ---- word-size independence of the integer kernels: corollaries of C01 / C09 theorems, which hold
          for an arbitrary word size and whose right-hand sides do not mention it *)
 Theorem C19_multiply_word_size_independent : forall w1 w2, 8 <= w1 -> 8 <= w2 ->
